@@ -216,7 +216,7 @@ def classify(fn):
         return 'GProt', echo
     if isinstance(t, ast.BoolOp) and isinstance(t.op, ast.And) and len(t.values) == 2 and is_protected_expr(t.values[0]):
         c = t.values[1]
-        if isinstance(c, ast.UnaryOp) and isinstance(c.op, ast.Not) and ast.unparse(c.operand) == 'self.interpreter.run_mode':
+        if isinstance(c, ast.UnaryOp) and isinstance(c.op, ast.Not) and ast.unparse(c.operand) in ('self.interpreter.run_mode', 'self.run_mode'):
             return 'GProtNotRun', echo
         if (isinstance(c, ast.Compare) and len(c.ops) == 1 and isinstance(c.ops[0], ast.NotEq)
                 and ast.unparse(c.left) == 'mode' and isinstance(c.comparators[0], ast.Constant)
@@ -409,6 +409,8 @@ def generate(repo):
         got = names_in(fn) & PRIMS
         if meth in ('merge', 'list_lines', 'edit', 'save') and cls == 'Program':
             got -= {meth}
+        if meth == 'save_':
+            got |= {'bytecode'}      # only len(bytecode) for the cassette header; optional
         if got != expected:
             raise Refuse('%s.%s reaches %s, expected %s' % (cls, meth, sorted(got), sorted(expected)))
     out.append('')
